@@ -174,6 +174,11 @@ func (r *Run) Finish() int {
 			r.Fail("FLOOR", rule, "-", fmt.Sprintf("rule %s generated %d obligations, fewer than the %d confirmed by hand on the pinned tree: the rule has lost its grip on the code (fail closed)", rule, perRule[rule], r.Floors[rule]))
 		}
 	}
+	if os.Getenv("ZL_DUMP") != "" {
+		for _, o := range r.Obs {
+			fmt.Printf("OB %s %s [%s] %s ok=%v %s\n", o.Rule, o.Construct, o.Cfg, o.Pos, o.OK, o.Detail)
+		}
+	}
 	known, kerr := loadKnown()
 	if kerr != nil {
 		r.Note("known_findings.txt not readable: %v", kerr)
